@@ -213,8 +213,25 @@ func fromEntry(ctx context.Context, services coreiface.CoreAPI, sourceEntries []
 		sliced = uniques
 	}
 
+	// Put the source entries that fell out of the slice back in, making room for
+	// them by dropping the oldest entries that were not supplied by the caller
 	missingSourceEntries := entry.Difference(sliced, sourceEntries)
-	result := append(missingSourceEntries, entrySliceRange(sliced, len(missingSourceEntries), len(sliced))...)
+
+	isSource := map[string]bool{}
+	for _, e := range sourceEntries {
+		isSource[e.GetHash().String()] = true
+	}
+
+	toDrop := len(missingSourceEntries)
+	result := missingSourceEntries
+	for _, e := range sliced {
+		if toDrop > 0 && !isSource[e.GetHash().String()] {
+			toDrop--
+			continue
+		}
+
+		result = append(result, e)
+	}
 
 	return &Snapshot{
 		ID:     result[len(result)-1].GetLogID(),
